@@ -293,17 +293,37 @@ func c05Alphabet(thorough bool) []vx.Op {
 	return a
 }
 
-func c05Key(p []vx.Op, got, want string) string {
+// c05StateTag describes the hidden state of the live bitmap that the failing step started from.
+func c05StateTag(b *Bitmap) string {
+	tag := "clean"
+	if sc, ok := b.Containers.(*sliceContainers); ok {
+		for _, c := range sc.containers {
+			if c == nil {
+				return "nil-slot"
+			}
+		}
+	}
+	it, _ := b.Containers.Iterator(0)
+	for it.Next() {
+		if _, c := it.Value(); c != nil && c.N() == 0 {
+			tag = "empty-container"
+		}
+	}
+	return tag
+}
+
+// c05Key: finding key = what differs + the failing step + the live bitmap's hidden state before that
+// step (obtained by replaying the minimal path without its last op).
+func c05Key(mk func() vx.Instance, p []vx.Op, got, want string) string {
 	last := p[len(p)-1]
-	ctx := map[string]bool{}
-	for _, o := range p[:len(p)-1] {
-		ctx[o.Name] = true
-	}
-	var names []string
-	for n := range ctx {
-		names = append(names, n)
-	}
-	sort.Strings(names)
+	state := "?"
+	vx.Guard(func() {
+		in := mk().(*c05Inst)
+		for _, o := range p[:len(p)-1] {
+			in.Apply(o)
+		}
+		state = c05StateTag(in.live)
+	})
 	what := "set"
 	switch {
 	case strings.HasPrefix(got, "PANIC"):
@@ -325,7 +345,11 @@ func c05Key(p []vx.Op, got, want string) string {
 			}
 		}
 	}
-	return "replay-differs what=" + what + " at=" + last.Name + " after=" + strings.Join(names, "+")
+	at := last.Name
+	if last.Name == "import" {
+		at = fmt.Sprintf("import(clear=%d,format=%d)", last.Args[0], last.Args[2])
+	}
+	return "replay-differs what=" + what + " at=" + at + " state-before=" + state
 }
 
 func TestVerif_C05(t *testing.T) {
@@ -335,15 +359,16 @@ func TestVerif_C05(t *testing.T) {
 	for kind := 0; kind < 2; kind++ {
 		for bi, base := range bases {
 			kind, base := kind, base
-			h := &vx.Harness{Alphabet: c05Alphabet(c.Thorough()), New: func() vx.Instance { return c05New(kind, base) }, Key: func(p []vx.Op, g, w string) string {
-				return c05Key(p, g, w) + fmt.Sprintf(" live=%s", [2]string{"slice", "btree"}[kind])
+			mk := func() vx.Instance { return c05New(kind, base) }
+			h := &vx.Harness{Alphabet: c05Alphabet(c.Thorough()), New: mk, Key: func(p []vx.Op, g, w string) string {
+				return c05Key(mk, p, g, w) + fmt.Sprintf(" live=%s", [2]string{"slice", "btree"}[kind])
 			}}
 			depth := c.Pick(3, 4)
 			if bi == 0 && kind == 0 {
 				depth = c.Pick(4, 5)
 			}
 			c.RunDFS(h, depth)
-			c.RunBFS(h, c.Pick(5, 7), c.Pick(15000, 150000))
+			c.RunBFS(h, c.Pick(4, 6), c.Pick(60000, 400000))
 			c.ConfirmViolations(h)
 		}
 	}
